@@ -58,7 +58,21 @@ def run(prop_id, tier, seed, replay=None):
     log(f'[{prop_id}] G done {time.time() - t0:.1f}s: ' + ', '.join(f"{r['name']}={r['generated_cases']}" for r in mc_results))
 
     rng = random.Random(seed)
-    records = mod.generate(tier, seed, ctx)
+    try:
+        records = mod.generate(tier, seed, ctx)
+    except Exception as e:
+        # the library blew up inside an observation the driver does not guard (e.g. hashing a live cell):
+        # that is the library misbehaving, not the machinery -- but only if the innermost frames are library code
+        tb = traceback.extract_tb(e.__traceback__)
+        if any('/repo/pytoniq_core' in f.filename for f in tb[-4:]) and not isinstance(e, MachineryError):
+            os.makedirs(vlib.REPLAYS, exist_ok=True)
+            path = os.path.join(vlib.REPLAYS, f'{prop_id}-{tier}-{seed}.json')
+            json.dump({'property': prop_id, 'tier': tier, 'seed': seed, 'ids': [],
+                       'driver_crash_inside_library': traceback.format_exc()[-3000:]}, open(path, 'w'), indent=1)
+            log(traceback.format_exc()[-1500:])
+            print(f'VIOLATION property={prop_id} replay={path}')
+            return 1
+        raise
     shard_lists = records and isinstance(records[0], list)
     flat = [r for p in records for r in p] if shard_lists else records
     for k, r in enumerate(flat):
